@@ -200,13 +200,12 @@ def run_assembly(ctx, cell, P, x, Q2, m2c, tag):
     def fake_convolution(rsl, chi, pj):
         j = basis.index(pj)
         idx = len(records)
-        if ctx is not None:
-            c, e = ctx.var(f"{tag}C{idx}", None, None, wlo=-2, whi=2), ctx.var(f"{tag}Ce{idx}", 0, None, lo_open=False, wlo=0, whi=1)
-        else:
-            import random
+        import random
 
-            r = random.Random(idx)
-            c, e = r.uniform(-2, 2), r.uniform(0, 1)
+        r = random.Random(idx)
+        c, e = round(r.uniform(-2, 2), 6), round(r.uniform(0, 1), 6)
+        if ctx is not None:
+            c, e = ctx.var_w(f"{tag}C{idx}", c), ctx.var_w(f"{tag}Ce{idx}", e, 0)
         records.append(dict(rsl=rsl, chi=chi, j=j, c=c, e=e))
         return c, e
 
@@ -343,6 +342,16 @@ def replay_assembly(args):
 
 
 REPLAYERS = {"conv": replay_conv_numeric, "assembly": replay_assembly}
+
+
+def float_pairs_assembly(args):
+    cell = dict(args["cell"])
+    cell["ZMq"] = tuple(cell["ZMq"])
+    with cm.fixed_nf():
+        return claims_assembly(None, cell, cm.ew_params(values=args["params"]), args["params"]["x"], args["params"]["Q2"], args["params"]["m2c"])
+
+
+REPLAYERS["assembly:pairs"] = float_pairs_assembly
 
 
 def run(chk, only=None):
